@@ -241,6 +241,11 @@ thread_local! {
 }
 
 thread_local! {
+    /// adaptive-fee worlds, one run in three: "high-frequency chain" run (see maybe_boundary_clock)
+    pub static HF_RUN: std::cell::Cell<bool> = const { std::cell::Cell::new(false) };
+}
+
+thread_local! {
     /// twin runs (C13): force the tick-array encoding without disturbing the PRNG stream
     pub static FORCE_ARRAY_KIND: std::cell::Cell<Option<u8>> = const { std::cell::Cell::new(None) };
 }
@@ -396,6 +401,7 @@ impl Gen {
         rt::install_stubs();
         let mut rng = Rng::new(seed ^ 0x5157_5053_494d_0001);
         let knobs = make_knobs(profile, &mut rng, thorough);
+        HF_RUN.with(|c| c.set(profile == Profile::Adaptive && seed % 3 == 0));
         V2_ONLY.with(|c| c.set(knobs.v2_only));
         ix::HOOK_MINTS.with(|h| h.borrow_mut().clear());
         let rent = if knobs.non_default_rent {
@@ -862,7 +868,11 @@ impl Gen {
     /// clock fault aimed at the adaptive-fee time windows: land a swap exactly at
     /// (last reference update | last major swap) + {filter, decay, 3600} -1 / +0 / +1 seconds
     fn maybe_boundary_clock(&mut self, tx: &Tx, ledger: &Ledger) {
-        if self.knobs.profile != Profile::Adaptive || self.knobs.clock_jump_pct == 0 || !self.rng.chance(1, 5) {
+        if self.knobs.profile != Profile::Adaptive || self.knobs.clock_jump_pct == 0 {
+            return;
+        }
+        let hf_run = self.seed % 3 == 0;
+        if !self.rng.chance(1, 5) && !(hf_run && self.rng.chance(4, 5)) {
             return;
         }
         let Some(c) = tx.ixs.first().and_then(crate::wpix::decode) else { return };
@@ -871,6 +881,20 @@ impl Gen {
         }
         let Some(o) = ledger.data(&c.a("oracle")).and_then(decode::oracle) else { return };
         let now = self.clock_now().unix_timestamp;
+        // high-frequency chain (one run in three of this kind): every swap lands filter - 1 seconds after the later of the
+        // last reference update and the last major swap, so that a chain of major swaps keeps the pool inside the filter
+        // window while its reference grows older than an hour
+        if self.seed % 3 == 0 && o.c.filter_period > 1 {
+            // (half a filter period after the base, once per base: the following swaps land naturally, seconds later and still
+            // inside the window, until one of them is a major swap and becomes the new base)
+            let base = o.v.last_reference_update_timestamp.max(o.v.last_major_swap_timestamp) as i64;
+            let target = base + (o.c.filter_period as i64 / 2).max(1);
+            if target > now && target - now < 100_000 {
+                self.ts_offset += target - now;
+                self.stats.hit("clock_jump_high_frequency_chain");
+            }
+            return;
+        }
         let base = if self.rng.chance(1, 2) {
             o.v.last_reference_update_timestamp
         } else {
@@ -893,7 +917,7 @@ impl Gen {
             // after the stall the clock resumes from where it would have been
             self.stats.hit("clock_stall");
         }
-        if k.clock_jump_pct > 0 && self.rng.chance(k.clock_jump_pct, 100) {
+        if k.clock_jump_pct > 0 && self.rng.chance(k.clock_jump_pct, 100) && !HF_RUN.with(|c| c.get()) {
             // extreme-reward worlds: years (interval products beyond 128 bits: the documented carve-out) and hours (products
             // just below 2^128 at the highest rates: the accumulator itself climbs to the top and wraps)
             let sel = if self.knobs.extreme_rewards && self.rng.chance(1, 2) { 4 + self.rng.below(3) } else { self.rng.below(8) };
@@ -1668,7 +1692,7 @@ pub fn pick_limit(rng: &mut Rng, l: &Ledger, whirlpool: &Pubkey, pool: &decode::
     // adaptive-fee pools: now and then a limit exactly the major-swap threshold away from a tick-aligned price (or, from
     // an unaligned price, the next aligned one first), so that chains of swaps move the price by exactly the threshold
     if let Some(o) = l.data(&ix::pda_oracle(whirlpool)).and_then(decode::oracle) {
-        if rng.chance(1, 6) {
+        if rng.chance(1, 6) || (HF_RUN.with(|c| c.get()) && rng.chance(1, 2)) {
             let t0 = model::tick_of_sqrt_price(p);
             let th = o.c.major_swap_threshold_ticks as i32;
             let t = if model::sqrt_price_of_tick(t0) == p {
@@ -1772,6 +1796,7 @@ fn plan_trader(w: &World, knobs: &Knobs, actor: &mut Actor, l: &Ledger) -> Vec<(
                 _ => rng.log_u64(knobs.swap_bits),
             };
             let mut limit = pick_limit(rng, l, &pi.keys.whirlpool, &pool, a_to_b);
+            let amount = if HF_RUN.with(|c| c.get()) && limit != 0 && rng.chance(2, 3) { u64::MAX >> rng.below(8) } else { amount };
             if attempt >= 2 && limit == 0 {
                 // stay inside the first array or so
                 let dt = 1 + rng.below(40 * pool.tick_spacing as u64) as i32;
